@@ -197,6 +197,57 @@ def stepWf (T : Table) : Step → Bool
   | .assign sec key _ => keyKnown T sec key
   | .observe => true
 
+/-! ### the words of a command line (entry point `client.main`) -/
+
+/-- what a user writes: `-c name` / `--config name`, the document, an option string with its words — in any order -/
+inductive Piece | cfg (long : Bool) (name : Str) | pos (w : Str) | occ (a : Occ)
+  deriving DecidableEq, Repr
+
+def Piece.words : Piece → List Str
+  | .cfg l n => [if l then sConfig else sDashC, n]
+  | .pos w => [w]
+  | .occ a => a.flag :: a.args
+
+def renderPieces (ps : List Piece) : List Str := ps.flatMap Piece.words
+
+def cfgNames : List Piece → List Str
+  | [] => []
+  | .cfg _ n :: r => n :: cfgNames r
+  | _ :: r => cfgNames r
+def posWords : List Piece → List Str
+  | [] => []
+  | .pos w :: r => w :: posWords r
+  | _ :: r => posWords r
+def occsOfPieces : List Piece → List Occ
+  | [] => []
+  | .occ a :: r => a :: occsOfPieces r
+  | _ :: r => occsOfPieces r
+
+/-- the next piece, if any, begins with an option string -/
+def startsOpt : List Piece → Bool
+  | .pos _ :: _ => false
+  | _ => true
+
+/-- a piece is unambiguous: values are plain words, the option string is registered and gets the number of words its
+    class takes; an option that takes "all following words" (`nargs='*'`, `'+'`) is not directly followed by the document -/
+def pieceOk (T : Table) (p : Piece) (rest : List Piece) : Bool :=
+  match p with
+  | .cfg _ n => !optLike n
+  | .pos w => !optLike w
+  | .occ a => optLike a.flag && !(a.flag = sDashC || a.flag = sConfig) && a.args.all (fun w => !optLike w) &&
+      match T.find? (owns · a.flag) with
+      | none => false
+      | some o => match nargsOf o with
+        | .zero => a.args.isEmpty
+        | .one => a.args.length == 1
+        | .two => a.args.length == 2
+        | .star => startsOpt rest
+        | .plus => !a.args.isEmpty && startsOpt rest
+
+def piecesOk (T : Table) : List Piece → Bool
+  | [] => true
+  | p :: r => pieceOk T p r && piecesOk T r
+
 /-! ### reading back -/
 
 /-- format strings of the property: literal text without `%`, `%%`, `%(name)s` -/
